@@ -191,12 +191,15 @@ impl ReadBufPool {
         // NOTE: initially poisoned in ReadBufPool::new.
         asan::unpoison(ring_buf);
         log::trace!(buffer_group = self.id, buffer = buf_id, addr:? = ptr; "reregistering buffer");
-        ring_buf.write(libc::io_uring_buf {
-            addr: ptr.cast::<u8>().as_ptr().addr() as u64,
-            len: self.buf_size,
-            bid: buf_id,
-            resv: 0,
-        });
+        // NOTE: we can't write the entire `io_uring_buf` as for the first
+        // entry the `resv` field overlaps with the tail of the ring, which the
+        // kernel could read at any time.
+        let ring_buf_ptr = ring_buf.as_mut_ptr();
+        unsafe {
+            (&raw mut (*ring_buf_ptr).addr).write(ptr.cast::<u8>().as_ptr().addr() as u64);
+            (&raw mut (*ring_buf_ptr).len).write(self.buf_size);
+            (&raw mut (*ring_buf_ptr).bid).write(buf_id);
+        }
         // NOTE: unpoisoned above.
         asan::poison_region(
             ring_buf.as_ptr().cast(),
